@@ -910,6 +910,8 @@ vbi_xds_demux_feed		(vbi_xds_demux *	xd,
 			log ("XDS ignore packet 0x%x/0x%02x, "
 			     "unknown class or subclass\n",
 			     xds_class, xds_subclass);
+			/* Do not discard the interrupted packet. */
+			sp = NULL;
 			goto discard;
 		}
 
